@@ -750,6 +750,7 @@ func ruleTabCast(c *Ctx, r *R) {
 		r.undecided("compile", "-", err.Error())
 		return
 	}
+	castPerTarget(c, r, cs)
 	for _, label := range []string{"var", "const"} {
 		if sc := cs.ByLabel[label]; sc != nil {
 			tabCastCase(c, r, sc, label)
@@ -760,9 +761,21 @@ func ruleTabCast(c *Ctx, r *R) {
 }
 
 func tabCastCase(c *Ctx, r *R, sc *switchCase, label string) {
-	// emission sites of codeCast in the declaration case
+	// emission sites of codeCast in the declaration case (or in a new helper it calls)
 	var sites []*ast.CompositeLit
+	roots := []ast.Node{sc.Clause}
 	ast.Inspect(sc.Clause, func(n ast.Node) bool {
+		if call, ok := n.(*ast.CallExpr); ok {
+			if o := c.Callee(call); o != nil && c.isNewHelper(o) {
+				if h := c.DeclOf(o); h != nil && h.Body != nil {
+					roots = append(roots, h.Body)
+				}
+			}
+		}
+		return true
+	})
+	for _, root := range roots {
+	ast.Inspect(root, func(n ast.Node) bool {
 		if cl, ok := n.(*ast.CompositeLit); ok && isNamed(c.TypeOf(cl), "instruction") {
 			for _, el := range cl.Elts {
 				if kv, ok := el.(*ast.KeyValueExpr); ok && types.ExprString(kv.Key) == "Code" && c.codeConstName(kv.Value) == "codeCast" {
@@ -772,6 +785,7 @@ func tabCastCase(c *Ctx, r *R, sc *switchCase, label string) {
 		}
 		return true
 	})
+	}
 	if len(sites) != 1 {
 		r.undecided("cast-site", c.Pos(sc.Clause), fmt.Sprintf("expected one CAST emission in the declaration case, found %d", len(sites)))
 		return
@@ -797,7 +811,18 @@ func tabCastCase(c *Ctx, r *R, sc *switchCase, label string) {
 	}
 	// conditions between the site and the case clause that mention the type variable
 	var conds []ast.Expr
+	var caseLists [][]ast.Expr // `switch typ { case A, B: ... }` around the site
 	for p := c.Parent(site); p != nil && p != ast.Node(sc.Clause); p = c.Parent(p) {
+		if _, isFn := p.(*ast.FuncDecl); isFn {
+			break
+		}
+		if cc, ok := p.(*ast.CaseClause); ok && cc != sc.Clause {
+			if sw, ok := c.Parent(c.Parent(cc)).(*ast.SwitchStmt); ok && sw.Tag != nil {
+				if id, ok := unparen(sw.Tag).(*ast.Ident); ok && c.Obj(id) == typObj && len(cc.List) > 0 {
+					caseLists = append(caseLists, cc.List)
+				}
+			}
+		}
 		if ifs, ok := p.(*ast.IfStmt); ok {
 			uses := false
 			ast.Inspect(ifs.Cond, func(n ast.Node) bool {
@@ -828,12 +853,23 @@ func tabCastCase(c *Ctx, r *R, sc *switchCase, label string) {
 				okAll = false
 			}
 		}
+		for _, list := range caseLists {
+			member := false
+			for _, e := range list {
+				if v, ok := c.ConstInt(e); ok && v == tags[tag] {
+					member = true
+				}
+			}
+			if !member {
+				okAll = false
+			}
+		}
 		if !decided {
 			r.undecided(key, c.Pos(site), "cannot fold the guard of the CAST emission for "+tag)
 			continue
 		}
 		r.check(okAll, key, c.Pos(site), "CAST emitted for declared type "+goTypeOfTag[tag],
-			fmt.Sprintf("`%s x %s = <untyped or other numeric>` emits no CAST: the guard %s is false for %s, so the variable keeps the initialiser's type (int32)", label, goTypeOfTag[tag], c.Src(conds[0]), tag))
+			fmt.Sprintf("`%s x %s = <untyped or other numeric>` emits no CAST: the guard of the CAST emission is false for %s, so the variable keeps the initialiser's type (int32)", label, goTypeOfTag[tag], tag))
 	}
 }
 
@@ -1186,4 +1222,95 @@ func ruleRepAnyStore(c *Ctx, r *R) {
 	if n == 0 {
 		r.ok("any-store", "no store takes its conversion type from the overwritten value")
 	}
+}
+
+// castPerTarget (part of TAB-CAST): CAST converts the value on top of the stack only, so in
+// `var a, b T = c1, c2` every target needs its own CAST immediately before its store.  On
+// every store path of the per-target loop of compile(":=") there is a CAST, or the path has
+// established that the target has no declared numeric type.
+func castPerTarget(c *Ctx, r *R, cs *bigSwitch) {
+	sc := cs.ByLabel[":="]
+	if sc == nil {
+		return
+	}
+	m := newLayMachine(c)
+	cl, err := m.runCase(cs, ":=")
+	if err != nil {
+		r.undecided("cast per target", c.Pos(sc.Clause), err.Error())
+		return
+	}
+	n := 0
+	for _, it := range cl.Iters {
+		for _, ex := range it.Exits {
+			hasStore, hasCast := false, false
+			for _, a := range ex.Atoms {
+				if a.Ins == nil {
+					// a helper that returns the CAST for a declared numeric type (or nothing)
+					if a.Seg != nil && a.Seg.Src != nil && a.Seg.Src.Op == "call" && c.isCastHelper(a.Seg.Src.Name) {
+						hasCast = true
+					}
+					continue
+				}
+				switch opName(a.Ins) {
+				case "LocalSet", "GlobalSet":
+					hasStore = true
+				case "Cast":
+					hasCast = true
+				}
+			}
+			if !hasStore {
+				continue
+			}
+			n++
+			if hasCast {
+				continue
+			}
+			established := false
+			for _, cd := range ex.St.Conds {
+				s := cd.String()
+				if strings.HasPrefix(s, "!") && (strings.Contains(s, "typeFromToken(") || strings.Contains(s, ".Tokens) > 0")) {
+					established = true
+				}
+				if strings.Contains(s, ".Tokens) <= 0") {
+					established = true
+				}
+			}
+			r.check(established, "cast per target", c.Pos(sc.Clause), "a store without CAST only for a target without a declared numeric type",
+				"compile(\":=\") stores a declared variable without a CAST on a path that has not established that the target has no declared numeric type ("+condStrings(ex.St)+"): CAST converts only the top of the stack, so with one CAST for the whole statement `var lo, hi uint8 = 250, 5` leaves lo an int32 (lo += 10 is 260, not 4) and `var w, h float64 = 3, 4; w / 2` is 1")
+		}
+	}
+	if n == 0 {
+		r.undecided("cast per target", c.Pos(sc.Clause), "no per-target store path found")
+	} else {
+		r.ok("cast per target paths", fmt.Sprintf("%d store paths", n))
+	}
+}
+
+// isCastHelper: a new helper whose every path returns either nothing or exactly one CAST,
+// the CAST paths being conditioned on the numeric-type list.
+func (c *Ctx) isCastHelper(name string) bool {
+	fd := c.Func(name)
+	if fd == nil || fd.Body == nil {
+		return false
+	}
+	if o := c.Info.Defs[fd.Name]; o == nil || !c.isNewHelper(o) {
+		return false
+	}
+	m := newLayMachine(c)
+	cl, err := m.runFunc(fd)
+	if err != nil {
+		return false
+	}
+	casts := 0
+	for _, p := range cl.Paths {
+		atoms := m.live(p)
+		switch {
+		case len(atoms) == 0:
+		case len(atoms) == 1 && atoms[0].Ins != nil && opName(atoms[0].Ins) == "Cast" && strings.Contains(condStrings(p.St), "Type"):
+			casts++
+		default:
+			return false
+		}
+	}
+	return casts > 0
 }
